@@ -433,7 +433,11 @@ func runOpWorld(rc *corepkg, prop string) {
 			if foreignEvents && err == nil && rc.Extra["stuck_region_scenarios"] == 0 && s.Choose(30, "adm.vanish") == 0 && !r.Merged {
 				rc.Extra["stuck_region_scenarios"]++
 				ow.deafUntil[r.ID] = time.Now().Add(30 * time.Minute)
+				// (heartbeats are sparse during the long wait: nothing but the clock matters here)
+				hbWas := ow.hbEvery
+				ow.hbEvery = 20 * time.Second
 				simrt.Sleep(time.Duration(11+s.Choose(3, "adm.vanish.wait")) * time.Minute)
+				ow.hbEvery = hbWas
 				if n := ow.M.RightNeighbour(r); n != nil && !r.Merged && !r.InJoint() && !n.InJoint() && simtikv.SameStores(r, n) {
 					ow.M.Merge(r, n)
 					ow.noteForeign(r.ID)
